@@ -774,11 +774,13 @@ class unyt_array(np.ndarray):
                 # actually fill in the new float values now that our
                 # dtype is correct
                 np.copyto(values, float_values)
-            self.units = new_units
             values *= conv_factor
 
             if offset:
                 np.subtract(values, offset, values)
+            # only relabel once the numbers have been converted: the in-place
+            # operations above refuse e.g. read-only buffers
+            self.units = new_units
         else:
             self.convert_to_equivalent(units, equivalence, **kwargs)
 
